@@ -99,7 +99,7 @@ CHECKS = {
         tech="deviation-bounded exhaustive enumeration of representation assignments over a value tree with a differential oracle"),
     "C03": dict(
         cat="model_checking", ref="4/C03",
-        text="Explicit-state search over call histories: one shared world (one engine, templates parsed once, binding environments built once and shared by reference, exactly as a caller would) and the operations R(t,b) = t.Render(b). All histories of length <=2 over 28 templates x 3 environments (quick) / <=3 over 38 x 4 (thorough), each replayed on a fresh world, plus 40-step round-robin histories. After every step three invariants are checked: a deep snapshot of every environment (slices up to capacity with sentinels in the spare capacity, aliased sub-slices, unexported fields, pointer identity) is unchanged; the result equals the solo result on a fresh engine, parse and bindings; the parsed render trees and the engine configuration are structurally unchanged. A further family keeps the []byte returned by renders of 0..2^20 bytes and re-reads it after later renders. Structural changes of render trees or engine configuration are recorded, not alarmed on (the statement defines template immutability through re-render equality).",
+        text="Explicit-state search over call histories: one shared world (one engine, templates parsed once, binding environments built once and shared by reference, exactly as a caller would) and the operations R(t,b) = t.Render(b). All histories of length <=2 over 29 templates x 3 environments (quick) / <=3 over 39 x 4 (thorough), each replayed on a fresh world, plus 40-step round-robin histories. After every step three invariants are checked: a deep snapshot of every environment (slices up to capacity with sentinels in the spare capacity, aliased sub-slices, unexported fields, pointer identity) is unchanged; the result equals the solo result on a fresh engine, parse and bindings; the parsed render trees and the engine configuration are structurally unchanged. A further family keeps the []byte returned by renders of 0..2^20 bytes and re-reads it after later renders. Structural changes of render trees or engine configuration are recorded, not alarmed on (the statement defines template immutability through re-render equality).",
         note="Successor = replay of the history on a fresh world + one operation (live objects cannot be cloned). Closure-captured state is visible only through the solo-equality invariant.",
         tech="explicit-state search over operation histories on the real objects with deep-snapshot invariants and a differential solo oracle"),
     "C04": dict(
